@@ -117,6 +117,9 @@ let () =
        | "Q" -> (* Q numSplits len *)
            Printf.printf "Q %s %s %s %s %s\n" (hex_of_z (emitted_partitions (a 1) (a 2))) (hex_of_z (weak_block_cost (a 2))) (hex_of_z (kb_blocks (a 2)))
              (hex_of_z mAX_NB_BLOCK_SPLITS) (hex_of_z mIN_SEQUENCES_BLOCK_SPLITTING)
+       | "L" -> (* L version hexbytes   -> legacy frame walk: compressed size, bound *)
+           let src = bytes_of_hex (if Array.length f > 2 then f.(2) else "") in
+           Printf.printf "L %s\n" (match legacy_find (a 1) src with Some (cs, b) -> "OK " ^ hex_of_z cs ^ " " ^ hex_of_z b | None -> "ERR")
        | "" -> ()
        | _ -> Printf.printf "?\n");
     done
